@@ -79,23 +79,48 @@ theorem wf_targets {cmds : List Cmd} (h : wfCfg cmds = true) {c : Nat} {cmd : Cm
   simp only [wfCfg, Bool.and_eq_true, List.all_eq_true] at h
   exact h.2 cmd (List.mem_of_getElem? hc)
 
+/-! ## the single-target command -/
+
+theorem singleTarget_of_mem {c : Cmd} {t : Nat} (h : t ∈ c.targets) :
+    singleTarget c t = some { id := c.id, targets := [t], tmo := c.tmo, args := [(t, argOf c t)] } := by
+  simp [singleTarget, h]
+
+theorem singleTarget_some {c sc : Cmd} {t : Nat} (h : singleTarget c t = some sc) :
+    t ∈ c.targets ∧ sc = { id := c.id, targets := [t], tmo := c.tmo, args := [(t, argOf c t)] } := by
+  unfold singleTarget at h
+  split at h
+  · rename_i hc
+    exact ⟨by simpa using hc, (Option.some.inj h).symm⟩
+  · cases h
+
+theorem argOf_single (t a : Nat) (id tmo : Nat) :
+    argOf { id := id, targets := [t], tmo := tmo, args := [(t, a)] } t = a := by
+  simp [argOf, List.find?]
+
+/-- The command a caller runs with, spelled out. -/
+theorem callCmd_of {cmds : List Cmd} {c p t : Nat} {cmd : Cmd} (hc : cmds[c]? = some cmd)
+    (ht : cmd.targets[p]? = some t) :
+    callCmd cmds (c, p) =
+      some ({ id := cmd.id, targets := [t], tmo := cmd.tmo, args := [(t, argOf cmd t)] }, t) := by
+  simp [callCmd, hc, ht, singleTarget_of_mem (List.mem_of_getElem? ht)]
+
 /-- Unfolding of `keyOf?`. -/
 theorem keyOf_some {cmds : List Cmd} {i : Ref} {k : CallId} (h : keyOf? cmds i = some k) :
     ∃ cmd, cmds[i.1]? = some cmd ∧ cmd.targets[i.2]? = some k.target ∧ k.id = cmd.id := by
-  unfold keyOf? at h
+  unfold keyOf? callCmd at h
   cases hc : cmds[i.1]? with
   | none => simp [hc] at h
   | some cmd =>
     cases ht : cmd.targets[i.2]? with
     | none => simp [hc, ht] at h
     | some t =>
-      simp [hc, ht] at h
+      simp [hc, ht, singleTarget_of_mem (List.mem_of_getElem? ht)] at h
       subst h
       exact ⟨cmd, rfl, ht, rfl⟩
 
 theorem keyOf_of {cmds : List Cmd} {c p t : Nat} {cmd : Cmd} (hc : cmds[c]? = some cmd)
     (ht : cmd.targets[p]? = some t) : keyOf? cmds (c, p) = some ⟨cmd.id, t⟩ := by
-  simp [keyOf?, hc, ht]
+  simp [keyOf?, callCmd_of hc ht]
 
 /-- Distinct command ids and distinct targets make the keys of different callers different. -/
 theorem keyOf_inj {cmds : List Cmd} (h : wfCfg cmds = true) {i j : Ref} {k : CallId}
@@ -919,5 +944,119 @@ theorem can_complete {cmds : List Cmd} (h : wfCfg cmds = true) {s : State} (inv 
   have hlen := sem_full h i2 hc hall
   refine ⟨commit cmd (s1.sem c), ?_⟩
   simp [run, step, hc, st1, nc1, hlen]
+
+/-! ## the per-target command: own timeout, own arguments -/
+
+theorem sendView_ok {cmds : List Cmd} {i : Ref} {ok : Bool} {e : Ev} (h : sendView cmds i ok = some e) :
+    sendOk1 cmds e = true := by
+  unfold sendView callCmd at h
+  cases hc : cmds[i.1]? with
+  | none => simp [hc] at h
+  | some cmd =>
+    cases ht : cmd.targets[i.2]? with
+    | none => simp [hc, ht] at h
+    | some t =>
+      have hm := List.mem_of_getElem? ht
+      simp [hc, ht, singleTarget_of_mem hm] at h
+      subst h
+      simp [sendOk1, hc, hm, argOf_single]
+
+theorem sendTrace_ok (cmds : List Cmd) : ∀ (sched : List Step) (s : State),
+    sendsOk cmds (sendTrace cmds s sched) = true := by
+  intro sched
+  induction sched with
+  | nil => intro s; simp [sendTrace, sendsOk]
+  | cons st rest ih =>
+    intro s
+    have ih' := ih (step cmds s st)
+    simp only [sendsOk] at ih' ⊢
+    simp only [sendTrace, List.all_append, Bool.and_eq_true, ih', and_true]
+    cases he : emitSend cmds s st with
+    | none => simp
+    | some e =>
+      have : sendOk1 cmds e = true := by
+        cases st <;> simp only [emitSend] at he <;> (try cases he) <;>
+          (split at he <;> first | exact sendView_ok he | cases he)
+      simp [this]
+
+/-! ## a reply that finds its call pending is never lost -/
+
+/-- A response sitting in a caller's `Call` object stays there: `ProcessResponse`
+    only ever writes to a call it found pending, and such a call has none. -/
+theorem mailbox_stable_step {cmds : List Cmd} {s : State} (inv : Inv cmds s) (st : Step) (i : Ref) (r0 : Resp)
+    (hm : (s.call i).mailbox = some r0) : ((step cmds s st).call i).mailbox = some r0 := by
+  obtain ⟨P, O, M, F, V⟩ := inv
+  cases st <;> simp only [step] <;> (repeat' split) <;> (try simp only [finish, upd]) <;> grind
+
+theorem mailbox_stable_run {cmds : List Cmd} (h : wfCfg cmds = true) : ∀ (sched : List Step) (s : State),
+    Inv cmds s → ∀ i r0, (s.call i).mailbox = some r0 → ((run cmds s sched).call i).mailbox = some r0 := by
+  intro sched
+  induction sched with
+  | nil => intro s _ i r0 hm; exact hm
+  | cons st rest ih =>
+    intro s inv i r0 hm
+    exact ih _ (inv_step h inv st) i r0 (mailbox_stable_step inv st i r0 hm)
+
+/-- `G`: a caller that returned a reply still holds it in its `Call` object. -/
+def ReplyHeld (s : State) : Prop :=
+  ∀ i r, (s.call i).pc = .finished (.reply r) → (s.call i).mailbox = some r
+
+theorem replyHeld_step {cmds : List Cmd} {s : State} (inv : Inv cmds s) (g : ReplyHeld s) (st : Step) :
+    ReplyHeld (step cmds s st) := by
+  intro i r hf
+  rcases pc_step_cause s st i (.reply r) hf with h1 | ⟨_, h2⟩
+  · exact mailbox_stable_step inv st i r (g i r h1)
+  · exact mailbox_stable_step inv st i r (h2 r rfl)
+
+theorem replyHeld_run {cmds : List Cmd} (h : wfCfg cmds = true) : ∀ (sched : List Step) (s : State),
+    Inv cmds s → ReplyHeld s → ReplyHeld (run cmds s sched) := by
+  intro sched
+  induction sched with
+  | nil => intro s _ g; exact g
+  | cons st rest ih => intro s inv g; exact ih _ (inv_step h inv st) (replyHeld_step inv g st)
+
+theorem replyHeld_init : ReplyHeld init := by
+  intro i r h; simp [init] at h
+
+/-- Between register and unregister. -/
+def Active (s : State) (i : Ref) : Prop := (s.call i).pc = .registered ∨ (s.call i).pc = .waiting
+
+/-- A caller between register and unregister stays there under every step but
+    its own send failure / timeout — or ends up holding a response. -/
+theorem active_step {cmds : List Cmd} {s : State} (st : Step) (i : Ref) (ha : Active s i)
+    (h1 : st ≠ .timeout i) (h2 : st ≠ .sendFail i) :
+    Active (step cmds s st) i ∨ ((step cmds s st).call i).mailbox ≠ none := by
+  unfold Active at *
+  cases st <;> simp only [step] <;> (repeat' split) <;> (try simp only [finish, upd]) <;> grind
+
+theorem active_run {cmds : List Cmd} (h : wfCfg cmds = true) : ∀ (mid : List Step) (s : State) (i : Ref),
+    Inv cmds s → Active s i → Step.timeout i ∉ mid → Step.sendFail i ∉ mid →
+    Active (run cmds s mid) i ∨ ((run cmds s mid).call i).mailbox ≠ none := by
+  intro mid
+  induction mid with
+  | nil => intro s i _ ha _ _; exact .inl ha
+  | cons st rest ih =>
+    intro s i inv ha h1 h2
+    simp only [List.mem_cons, not_or] at h1 h2
+    rcases active_step (cmds := cmds) st i ha (Ne.symm h1.1) (Ne.symm h2.1) with h3 | h3
+    · exact ih _ i (inv_step h inv st) h3 h1.2 h2.2
+    · right
+      cases hm : ((step cmds s st).call i).mailbox with
+      | none => exact absurd hm h3
+      | some r0 =>
+        simp only [run]
+        rw [mailbox_stable_run h rest _ (inv_step h inv st) i r0 hm]
+        simp
+
+/-- `ProcessResponse(r)` on a caller that is between register and unregister:
+    afterwards the caller's `Call` object holds a response. -/
+theorem deliver_fills {cmds : List Cmd} {s : State} (inv : Inv cmds s) {i : Ref} {r : Resp}
+    (hk : keyOf? cmds i = some r.key) (ha : Active s i) :
+    ((step cmds s (.deliver r)).call i).mailbox ≠ none := by
+  cases hm : (s.call i).mailbox with
+  | some r0 => rw [mailbox_stable_step inv (.deliver r) i r0 hm]; simp
+  | none =>
+    have hp := inv.O i r.key hk ha hm
+    simp [step, hp]
 
 end CmdQueue
